@@ -33,7 +33,9 @@ double __wrap_drand48(void) {
     sim::g_env_draws++;
     return (double)(sim::g_env_rng.next() >> 11) / 9007199254740992.0;
 }
-void __wrap_srand(unsigned) {}
-void __wrap_srandom(unsigned) {}
-void __wrap_srand48(long) {}
+// seeding by the library itself is honoured (the sequence after it is a function of the seed,
+// as with libc); the stream stays simulator-owned, so interleaved users still disturb each other
+void __wrap_srand(unsigned s) { sim::g_env_rng.reseed(0x5eed0000ULL ^ s); }
+void __wrap_srandom(unsigned s) { sim::g_env_rng.reseed(0x5eed0000ULL ^ s); }
+void __wrap_srand48(long s) { sim::g_env_rng.reseed(0x5eed4800ULL ^ (uint64_t)s); }
 }
